@@ -427,6 +427,10 @@ class Read(Suite):
         big = tier == "thorough" or widen
         # ids of any magnitude (every limit, each way of reading): as written (reset_index=False, any distinct ids in any row order),
         # shifted to the root (reset_index=True), sorted (arbitrary ids, arbitrary row order), and through a population directory
+        # (`reset` tables keep the documented id convention — the first root carries the smallest id. Files whose root is NOT the smallest id,
+        # read with reset_index=True and sort_nodes=False, are not a judgeable family: the unchanged reset_index_ already turns a parent id equal
+        # to root_id - 1 into -1 (an extra root, a lost edge) and yields negative ids there — DESIGN §6 'looked at'; sort_nodes=True is the option
+        # for arbitrary ids and is asked in `sorted-read`.)
         for mag in ID_MAGS:
             for how in ["raw", "reset", "sorted-read"] + (["population"] if big or mag in ("2^24", "2^53", "sparse") else []):
                 for _ in range(6 if big else 1):
